@@ -18,7 +18,7 @@ CHECKS = {
         technique="TLA+ spec + TLC; state-graph edge cover replayed on the real latch (spec -> code conformance)",
         engine="E1-tlc + E2-walk", ref="DESIGN.md 6 C11"),
     "C03": dict(
-        text="The init barrier is part of the composite specification spec/Rapid.tla (init program counter, four init latches, registration service, agent automata). Scenario scripts drive the real stack through seeded arrival orders of register/next calls of 0..3 external and 0..2 internal extensions, the runtime and the first invocation, with directory entries, dot-named extension files, registrations arriving while the launch loop is still running, a held-back party and a late registration; TLC decides for every recorded trace whether it is a behaviour of the specification (trace validation with internal steps, strict-timer rule).",
+        text="The init barrier is part of the composite specification spec/Rapid.tla (init program counter, four init latches, registration service, agent automata). Scenario scripts drive the real stack through seeded arrival orders of register/next calls of 0..3 external and 0..2 internal extensions, the runtime and the first invocation, with directory entries, dot-named extension files, registrations arriving while the launch loop is still running, a held-back party and a late registration, and the same barrier in the second generation (inline init of the invocation after a timeout / runtime exit, one party's poll held back); TLC decides for every recorded trace whether it is a behaviour of the specification (trace validation with internal steps, strict-timer rule).",
         note=SCEN_NOTE, technique="TLA+ spec + TLC trace validation of recorded full-stack traces (code -> spec conformance)",
         engine="E4-scenarios + E3-trace", ref="DESIGN.md 6 C03"),
     "C04": dict(
@@ -52,14 +52,14 @@ CHECKS.update({
         note=SCEN_NOTE, technique="TLA+ spec + TLC trace validation of recorded full-stack traces (fault-point enumeration)",
         engine="E4-scenarios + E3-trace", ref="DESIGN.md 6 C06"),
     "C14": dict(
-        text="SendBody in spec/Rapid.tla distinguishes bodies above the limit (413 to the runtime, Function.ResponseSizeTooLarge to the caller, runtime state ResponseSent, no reset) and events above the limit (delivered cut). Scenarios place response sizes {0,1,L/2,L-1,L,L+1,L+4096} and request sizes {L-1,L,L+1,L+4096} (real constant L = 6 MiB + 100) in every position of a sequence; the projection classifies bytes (equal / cut at L / error JSON naming both sizes); TLC validates each trace, in which a Kill/Exec between invocations would be unexplainable.",
+        text="SendBody in spec/Rapid.tla distinguishes bodies above the limit (413 to the runtime, Function.ResponseSizeTooLarge to the caller, runtime state ResponseSent, no reset) and events above the limit (delivered cut). Scenarios place response sizes {0,1,L/2,L-1,L,L+1,L+4096} and request sizes {L-1,L,L+1,L+4096} (real constant L = 6 MiB + 100) in every position of a sequence, also for responses that declare the streaming mode; the projection classifies bytes (equal / cut at L / error JSON naming both sizes); TLC validates each trace, in which a Kill/Exec between invocations would be unexplainable.",
         note=SCEN_NOTE, technique="TLA+ spec + TLC trace validation of recorded full-stack traces; size sweep around the limit",
         engine="E4-scenarios + E3-trace", ref="DESIGN.md 6 C14"),
 })
 
 CHECKS.update({
     "C08": dict(
-        text="Everything that survives a generation is a field of the state record of spec/Rapid.tla (latch count/arrivals/cancellation, cancel-once flag, registration maps and window, first fatal error, cached init error, completion channel, reservation, exit channels). Scenarios run a prefix {healthy+timeout, runtime init error, crash, timeout, extension crash, extension init error, ...} ending in a reset and a suffix {healthy, crash, early internal extension, timeout} on the same instance. TLC validates (a) the whole trace against the specification and (b) the suffix alone, renumbered, against the specification started from a fresh instance whose one-time init is consumed - the state formulation of 'behaves exactly like a freshly started one'.",
+        text="Everything that survives a generation is a field of the state record of spec/Rapid.tla (latch count/arrivals/cancellation, cancel-once flag, registration maps and window, first fatal error, cached init error, completion channel, reservation, exit channels). Scenarios run a prefix {healthy+timeout, runtime init error, crash, timeout, extension crash, extension init error, an extension that ignores SHUTDOWN, an invocation that times out while the init it overlaps never completes, ...} ending in a reset and a suffix {healthy, crash, early internal extension, timeout} on the same instance. TLC validates (a) the whole trace against the specification and (b) the suffix alone, renumbered, against the specification started from a fresh instance whose one-time init is consumed - the state formulation of 'behaves exactly like a freshly started one'.",
         note=SCEN_NOTE + " Late exit notifications of old processes are ordered by the fake supervisor's goroutines, not forced.", technique="TLA+ spec + TLC trace validation; suffix-from-fresh acceptance (relational property as state equality)",
         engine="E4-scenarios + E3-trace", ref="DESIGN.md 6 C08"),
 })
@@ -81,11 +81,11 @@ CHECKS.update({
 
 CHECKS.update({
     "C02": dict(
-        text="Request-id middleware, runtime automaton, reply-stream checks (SendBody) and the addressing of platform-generated errors are modelled in spec/Rapid.tla. Scenarios enumerate histories {ok, error, timeout, crash} x placement of a stale / duplicate / unknown response or error {before the next invocation arrives, before the runtime polls, after delivery, after the response, after completion} x submission kind; TLC validates each trace: the submission is refused with 400/403, the caller of the following invocation receives exactly the body posted for its own id, the automaton continues as if the refused call had not happened. A further family submits a response / error for the current id after the platform's own error answer (extension fault), during the failure reset.",
+        text="Request-id middleware, runtime automaton, reply-stream checks (SendBody) and the addressing of platform-generated errors are modelled in spec/Rapid.tla. Scenarios enumerate histories {ok, error, timeout, crash} x placement of a stale / duplicate / unknown response or error {before the next invocation arrives, before the runtime polls, after delivery, after the response, after completion} x submission kind; TLC validates each trace: the submission is refused with 400/403, the caller of the following invocation receives exactly the body posted for its own id, the automaton continues as if the refused call had not happened. A further family submits a response / error for the current id after the platform's own error answer (extension fault), during the failure reset; another one makes a second submission while the first is still uploading its body (the specification has a header phase for slowly uploaded requests), also with a response-mode header that is refused.",
         note=SCEN_NOTE, technique="TLA+ spec + TLC trace validation of recorded full-stack traces (placement enumeration)",
         engine="E4-scenarios + E3-trace", ref="DESIGN.md 6 C02"),
     "C07": dict(
-        text="Seeded random programs of the runtime, up to two external and one internal extension over the whole Runtime/Extensions API alphabet including misuse, stalls and exits (code 0, non-zero, signals) at any point, over one to three faulty generations, followed by a flushing and a healthy invocation, are executed on the real stack (child processes: a crash of the emulator is observed directly). TLC validates every trace against the full composite spec/Rapid.tla: one outcome per invocation within the time bound (an invocation without outcome is an unexplainable event), bodies are posted bodies or platform errors, the healthy invocation is served.",
+        text="Seeded random programs of the runtime, up to two external and one internal extension over the whole Runtime/Extensions API alphabet including misuse, stalls and exits (code 0, non-zero, signals) at any point, over one to three faulty generations, followed by a flushing and a healthy invocation, and histories in which the exit notification of a killed process arrives after the reset stopped waiting for it, are executed on the real stack (child processes: a crash of the emulator is observed directly). TLC validates every trace against the full composite spec/Rapid.tla: one outcome per invocation within the time bound (an invocation without outcome is an unexplainable event), bodies are posted bodies or platform errors, the healthy invocation is served.",
         note=SCEN_NOTE + " The random programs are samples of the behaviour space, not an enumeration.", technique="TLA+ spec + TLC trace validation of randomized full-stack programs; crash containment in child processes",
         engine="E4-scenarios + E3-trace", ref="DESIGN.md 6 C07"),
 })
@@ -112,7 +112,7 @@ CHECKS.update({
 
 CHECKS.update({
     "C19": dict(
-        text="spec/Supervisor.tla states the supervisor contract (Exec, Terminate = SIGTERM to the group without waiting, Kill = SIGKILL to the group returning once the process is gone, exactly one truthful termination event per process); TLC checks AtMostOneEvent, EventOnlyAfterDeath, DeadStaysDead and, under fairness of event delivery, EveryDeathReported for two processes of every behaviour. Binding: black-box traces of the real supervisor.LocalSupervisor running seeded random concurrent programs of 2-4 real /bin/sh children {exit 0, exit 3, self-signal, trap TERM, ignore TERM, fork children, fork + ignore TERM, exit 0 leaving a child that holds the output pipe}, output through pipes into non-file writers (one of them slow), with Terminate / Kill (future and past deadlines, unknown names, repeats) are validated by TLC against spec/Trace_Supervisor.tla, with ground truth for 'gone' from pid files and /proc. The same trace specification validates the harness's fake supervisor, i.e. the contract every full-stack check assumes.",
+        text="spec/Supervisor.tla states the supervisor contract (Exec, Terminate = SIGTERM to the group without waiting, Kill = SIGKILL to the group returning once the process is gone, exactly one truthful termination event per process); TLC checks AtMostOneEvent, EventOnlyAfterDeath, DeadStaysDead and, under fairness of event delivery, EveryDeathReported for two processes of every behaviour. Binding: black-box traces of the real supervisor.LocalSupervisor running seeded random concurrent programs of 2-4 real /bin/sh children {exit 0, exit 3, self-signal, trap TERM, ignore TERM, fork children, fork + ignore TERM, exit 0 leaving a child that holds the output pipe}, output through pipes into non-file writers (one of them slow), with Terminate / Kill (future and past deadlines, unknown names, repeats), plus a scripted trace (leaders that leave children behind, a Kill that waits 600 ms for the last words of an exited process while other processes are terminated - Terminate must not wait) are validated by TLC against spec/Trace_Supervisor.tla, with ground truth for 'gone' from pid files and /proc. The same trace specification validates the harness's fake supervisor, i.e. the contract every full-stack check assumes.",
         note="Trusted: TLC, /bin/sh signal semantics, /proc. Schedules are those the random programs produce.",
         technique="TLA+ contract spec + TLC; black-box trace validation of the real supervisor with real child processes",
         engine="E1-tlc + E3-trace", ref="DESIGN.md 6 C19"),
